@@ -71,3 +71,10 @@ Theorem C15_level_by_level_refuted : select w_amb [88] = None /\ hier_select w_a
 Proof. exact hier_refuted. Qed.
 Example C15_tag_two_levels_down : select w_tag [88] = Some [0; 0; 0]%nat.
 Proof. exact tag_at_depth. Qed.
+
+(* ---- the 8-bit and the 16-bit key matcher are one function up to the width of their bit sets (Gen/Twins.v, read from
+   internal/decoder/struct.go on every run), in buffer mode and in stream mode: the theorems above about the matcher
+   (Model/KeyBitmap.v has one matcher, parametric in the number of names) speak about both ---- *)
+From GJ Require Import Gen.Twins.
+Theorem C15_key_matchers_of_both_widths_are_one_text : key_matchers_8_16_alike_buffer = true /\ key_matchers_8_16_alike_stream = true.
+Proof. split; reflexivity. Qed.
